@@ -16,6 +16,7 @@ MUTANTS = [
     ('id in report', [(M + 'frequency_as_mininec', "r.append ('')", "r.append ('# %d' % id (self))")], ['no-ambient']),
     ('compute after print in sweep', [('mininec.main', "        m.f = args.frequency + k * args.frequency_increment\n        m.compute ()\n", "        m.f = args.frequency + k * args.frequency_increment\n")], ['ORDER.sweep', 'sweep']),
     ('cached far-field array divided in place', [(M + 'compute_far_field', "        self.ff_dist  = dist\n", "        self.ff_dist  = dist\n        if getattr (self, '_ffc', None) is None:\n            self._ffc = np.ones (3)\n        ffc = self._ffc\n        ffc /= 2\n")], ['no-inplace']),
+    ('ground impedance computed once at construction', [(M + 'check_ground', "        else:\n            self.boundary = 'linear'", "        else:\n            self.boundary = 'linear'\n        self.media_z = [x.impedance (self.f) for x in (self.media or ())]")], ['frequency-state']),
 ]
 MUTANTS = [m_ for m_ in MUTANTS if m_[2]]
 REFACTORS = [
